@@ -69,6 +69,15 @@ def same(a, b):
     return type(a) is type(b) and a == b
 
 
+def truth_ok(kind, got, t):
+    """Output truth for a chosen input.  Switch 'simply switches the selected input to the output': the truth as stored (the
+    normalised form is tolerated).  Priority / trusted work on the confidence 'constrained to range [0.0, 1.0]' (None/True -> 1.0):
+    the output truth must have that normalised value (compared by value: None or 2 are wrong, 1.0 is right)."""
+    if kind == "ArbiterSwitch":
+        return same(got, t) or same(got, fix(t))
+    return isinstance(got, (int, float)) and got == fix(t)
+
+
 def reference(kind, cfg, dt):
     """-> ('input', i) | ('default',) | ('average', value Fraction, truth Fraction)."""
     if kind == "ArbiterSwitch":
@@ -225,13 +234,13 @@ def _work(job):
             want = "default (%r, %r)" % (DEFAULT_VALUE, dt)
         elif exp[0] == "input-or-default":
             s, t, m, v = cfg[exp[1]]
-            ok = (same(gv, DEFAULT_VALUE) and same(gt, dt)) or (same(gv, v) and (same(gt, t) or same(gt, fix(t))))
+            ok = (same(gv, DEFAULT_VALUE) and same(gt, dt)) or (same(gv, v) and truth_ok(kind, gt, t))
             want = "default (%r, %r) or input %d (%r, %r)" % (DEFAULT_VALUE, dt, exp[1], v, fix(t))
         elif exp[0] == "input":
             s, t, m, v = cfg[exp[1]]
-            # the chosen input's value, and its truth either as stored or normalised to [0, 1]
-            ok = same(gv, v) and (same(gt, t) or same(gt, fix(t)))
-            want = "input %d (%r, %r or %r)" % (exp[1], v, t, fix(t))
+            # the chosen input's value, and its truth (switch: as stored or normalised; priority / trusted: normalised to [0, 1])
+            ok = same(gv, v) and truth_ok(kind, gt, t)
+            want = "input %d (%r, %s)" % (exp[1], v, ("%r or %r" % (t, fix(t))) if kind == "ArbiterSwitch" else repr(fix(t)))
         else:
             ev, et = float(exp[1]), float(exp[2])
             ok = (isinstance(gv, float) and isinstance(gt, float) and math.isclose(gv, ev, rel_tol=1e-12, abs_tol=1e-12)
@@ -314,8 +323,9 @@ def run():
     ck.merge(core.pmap(work, jobs, chunksize=4))
     ck.assumptions = [
         "truths are normalised as documented: None/True -> 1.0, False -> 0.0, numbers clamped to [0, 1]; 'exceeds the default truth' compares the normalised truth",
-        "the output must carry the chosen input's value and that input's truth, either as stored or normalised (the switch arbiter copies it as stored, "
-        "priority/trusted write the normalised truth; the statement does not say which)",
+        "the output must carry the chosen input's value and truth: the switch arbiter passes the truth on as stored (normalised also accepted); the priority and "
+        "trusted arbiters output the confidence they ranked by, i.e. normalised to [0, 1] as their docstrings say (None/True -> 1.0, 2 -> 1.0, -0.5 -> 0.0), compared by "
+        "value (True == 1.0 passes; None, 2 or -0.5 coming out raw do not)",
         "importances cover the documented range [0.0, 1.0] incl. 0 / 0.0 (zero-importance family, n <= 3): the switch arbiter ignores importances, the trusted "
         "arbiter ranks by truth first (an importance-0 input of highest truth wins; importance only breaks ties), a zero weight drops out of the weighted "
         "average; for the priority arbiter, when every selected sufficient input has importance 0 both the default (ioflo: nothing has any importance) and "
